@@ -6,7 +6,8 @@ from __future__ import annotations
 import re
 
 
-def problems(doc, *, transformed: bool, warnings_text: str = "", sphinx: bool = False) -> list[tuple[str, str]]:
+def problems(doc, *, transformed: bool, warnings_text: str = "", sphinx: bool = False,
+             docinfo_removed: bool = False) -> list[tuple[str, str]]:
     from docutils import nodes
     from markdown_it.common.normalize_url import normalizeLink
 
@@ -79,7 +80,7 @@ def problems(doc, *, transformed: bool, warnings_text: str = "", sphinx: bool = 
                         out.append((f"dangling-refid:{n.tagname}", repr(rid)))
             if isinstance(n, (nodes.footnote, nodes.citation, nodes.system_message)):
                 for b in n.get("backrefs", []):
-                    if b not in owner:
+                    if b not in owner and not docinfo_removed:
                         out.append((f"dangling-backref:{n.tagname}", repr(b)))
     # (vi) tables
     for n in elements:
